@@ -160,7 +160,8 @@ theorem current_heal_closed (hacc : PyGql.Generated.HeapCfg.currentCfg.accumulat
 
 /-! #### member level of `untouched_preserved` for `extend_schema` -/
 
-/-- PARTIAL (member level, at the rebuild functions): every field `_extend_field` builds is a copy of a source field that keeps
+/-- SUBSUMED (kept for name stability) by the full `untouched_preserved_extend` (Props/C14_extend.lean), which composes this with the frame part.
+    PARTIAL (member level, at the rebuild functions): every field `_extend_field` builds is a copy of a source field that keeps
     name, description, deprecation reason, resolver, (re-pointed) type and — as far as the constructor passes them —
     subscription resolver and python name (`FieldKept cfg`); each of its arguments is a copy of a source argument keeping
     name, default, description, (re-pointed) type and python name (`ArgKept`). For all heaps, all member lists whose
@@ -174,14 +175,16 @@ theorem untouched_preserved_extend_members_partial (cfg : Cfg) (N : List (String
         (extendFields cfg N h as).1.readArg x = some g' ∧ ArgKept cfg.extArgPy N g g' :=
   extendFields_kept cfg N as h h (FrameX.refl _ h) hlt hargs
 
-/-- … and for input fields / directive arguments (`_extend_argument`, the `InputField(...)` rebuild) -/
+/-- SUBSUMED (kept for name stability) by the full `untouched_preserved_extend` / `untouched_preserved_extend_directives`.
+    … and for input fields / directive arguments (`_extend_argument`, the `InputField(...)` rebuild) -/
 theorem untouched_preserved_extend_args_partial (k : Bool) (N : List (String × Addr)) (as : List Addr) (h : Heap)
     (hlt : ∀ a, a ∈ as → a < h.size) :
     ∀ c, c ∈ (extendArgs k N h as).2 → ∃ a g g', a ∈ as ∧ h.readArg a = some g ∧
       (extendArgs k N h as).1.readArg c = some g' ∧ ArgKept k N g g' :=
   extendArgs_kept k N as h h (FrameX.refl _ h) hlt
 
-/-- FRAME PART at member level (full, for all heaps / schemas / extension documents): whatever `extend_schema` still does after
+/-- Used by (and subsumed in) the full `untouched_preserved_extend` (Props/C14_extend.lean).
+    FRAME PART at member level (full, for all heaps / schemas / extension documents): whatever `extend_schema` still does after
     some point (`extendRest`: the remaining registered types `l`, the new types, all directives) writes placeholder addresses
     only — every object allocated after the placeholders, i.e. every rebuilt field, argument and input field, reads the same
     at the end of `extend_schema` (`extend_heap_eq`: `extend` = placeholders + `extendRest` over all registered types).
